@@ -1075,6 +1075,135 @@ def mon_C17(case):
     return []
 
 
+_PG_QUERIES = {"fast": None, "verified": "e",
+               "clean": "434c4f534520414c4c3b205345542053455353494f4e20415554484f52495a4154494f4e2044454641554c543b20524553455420414c4c3b20554e4c495354454e202a3b2053454c4543542070675f61647669736f72795f756e6c6f636b5f616c6c28293b20444953434152442054454d503b20444953434152442053455155454e4345533b"}
+
+
+def mon_C16(case):
+    """postgres pool: an independent re-simulation (own bookkeeping of closed / taken clients and
+    of every client's cache) of the history the harness reports with each operation, checked
+    against what the real pool, clients and scripted server did in the current operation"""
+    for x in case["extra"]:
+        if x.startswith("pwx ") and not x.startswith("pwx history"):
+            return [(0, x[4:])]
+    hist = next((x[len("pwx history "):] for x in case["extra"] if x.startswith("pwx history ")), None)
+    if hist is None:
+        return []
+    entries = [e.split(" => ") for e in hist.split(" ;; ")]
+    method_q = None
+    bad, taken, held, idle, known = set(), set(), set(), [], set()
+    caches, used = {}, {}
+    def cache(c):
+        return caches.setdefault(c, {})
+    verdict = []
+    for n, (inp, out) in enumerate(entries):
+        last = n == len(entries) - 1
+        ws, r = inp.split(), kvs(out)
+        def fail(msg):
+            if last:
+                verdict.append((0, msg + f" [{inp} => {out}]"))
+        op = ws[1]
+        if op == "cfg":
+            c = kvs(inp)
+            method_q = c.get("sql") if c["method"] == "custom" else _PG_QUERIES[c["method"]]
+        elif op == "get":
+            toks = ws[2:]
+            qs = [q.split(":") for q in r.get("queries", "[]")[1:-1].split(",") if q]
+            for k, (cid, sql) in enumerate(qs):
+                if cid not in idle:
+                    fail(f"client {cid} was sent a check query but was not idle")
+                if cid in bad:
+                    fail(f"closed client {cid} was sent a check query")
+                if sql != method_q:
+                    fail(f"check query {sql} sent to client {cid}, the method's is {method_q}")
+                tok = toks[k] if k < len(toks) else "ok"
+                if tok != "ok":
+                    bad.add(cid)
+            res = r.get("res", "")
+            if res.startswith("ok:"):
+                cid = res[3:]
+                if cid in bad:
+                    fail(f"client {cid} is closed / failed its check and is handed out")
+                if cid in taken or cid in held:
+                    fail(f"client {cid} is taken / already checked out and is handed out")
+                if cid in known and method_q is not None and (not qs or qs[-1][0] != cid):
+                    fail(f"client {cid} reused without its check query")
+                # everything idle in front of it was examined and rejected (or it is new: all were)
+                if cid in idle:
+                    idle = idle[idle.index(cid) + 1:]
+                else:
+                    idle = []
+                held.add(cid)
+                known.add(cid)
+            elif res != "timeout_wait":
+                fail(f"get() failed with {res}")
+            elif len(held) < int(r.get("max", "0")):
+                fail(f"get() timed out with only {len(held)} clients checked out")
+        elif op == "ret":
+            held.discard(ws[2]); idle.append(ws[2])
+        elif op == "take":
+            held.discard(ws[2]); taken.add(ws[2])
+        elif op == "kill":
+            bad.add(ws[2])
+        elif op == "prep":
+            if "stmt" not in r:
+                continue
+            cid, key = ws[2], (ws[3], ws[4])
+            c = cache(cid)
+            want_rt = "0" if key in c else "1"
+            if r["rt"] != want_rt:
+                fail(f"prepare of a {'cached' if key in c else 'new'} key made {r['rt']} round trips")
+            if key in c and c[key] is not None and r["stmt"] != c[key]:
+                fail(f"cache hit returned statement {r['stmt']}, cached was {c[key]}")
+            if key not in c:
+                if r["stmt"] in used.setdefault(cid, set()):
+                    fail(f"a miss returned statement {r['stmt']} that had been issued before")
+                if not r["stmt"].startswith(cid + ":"):
+                    fail(f"statement {r['stmt']} is not of client {cid}")
+            c[key] = r["stmt"]
+            used.setdefault(cid, set()).add(r["stmt"])
+            if r["csize"] != str(len(c)):
+                fail(f"size() = {r['csize']}, cached keys = {len(c)}")
+        elif op == "prep2":
+            if "rt" not in r:
+                continue
+            cid, key = ws[2], (ws[3], ws[4])
+            c = cache(cid)
+            if r["rt"] != ("0" if key in c else "2"):
+                fail(f"two concurrent prepares of a {'cached' if key in c else 'new'} key made {r['rt']} round trips")
+            c.setdefault(key, None)
+            if r["csize"] != str(len(c)):
+                fail(f"size() = {r['csize']} after two concurrent prepares of one key, cached keys = {len(c)}")
+        elif op == "rm":
+            c = cache(ws[2]); c.pop((ws[3], ws[4]), None)
+            if r.get("csize") != str(len(c)):
+                fail(f"size() = {r.get('csize')} after remove, cached keys = {len(c)}")
+        elif op == "clear":
+            cache(ws[2]).clear()
+            if r.get("csize") != "0":
+                fail("size() != 0 after clear")
+        elif op == "regclear":
+            for cid in list(held) + idle:
+                cache(cid).clear()
+        elif op == "regrm":
+            for cid in list(held) + idle:
+                cache(cid).pop((ws[2], ws[3]), None)
+        elif op == "sizes":
+            def lst(v):
+                return dict(x.split(":") for x in v[1:-1].split(",") if x)
+            for name, ids in (("held", held), ("taken", taken)):
+                got = lst(r.get(name, "[]"))
+                want = {cid: str(len(cache(cid))) for cid in ids}
+                if got != want:
+                    fail(f"cache sizes of {name} clients {got}, expected {want} (registry operations must reach exactly the pool's clients)")
+            got_idle = sorted(x for x in r.get("idle", "[]")[1:-1].split(",") if x)
+            want_idle = sorted(str(len(cache(cid))) for cid in idle if True)
+            # idle clients that are closed are still in the queue until a get examines them
+            if got_idle != sorted(want_idle, key=str):
+                fail(f"cache sizes of idle clients {got_idle}, expected {sorted(want_idle)}")
+    return verdict[:1]
+
+
 def mon_C19(case):
     """redis configs: independent re-statement of the property on the harness's own input
     description and the implementation's answer (never looks at the model)"""
@@ -1450,4 +1579,4 @@ def mon_C08(run):
     return bad[:1]
 
 
-MONITORS = {"C17": mon_C17, "C14": mon_C14, "C15": mon_C15, "C18": mon_C18, "C19": mon_C19, "C05": mon_C05, "C12": mon_C12, "C08": mon_C08, "C13": mon_C13, "C04": mon_C04, "C07": mon_C07, "C06": mon_C06, "C09": mon_C09, "C03": mon_C03, "C10": mon_C10, "C01": mon_C01, "C02": mon_C02, "C11": mon_C11}
+MONITORS = {"C16": mon_C16, "C17": mon_C17, "C14": mon_C14, "C15": mon_C15, "C18": mon_C18, "C19": mon_C19, "C05": mon_C05, "C12": mon_C12, "C08": mon_C08, "C13": mon_C13, "C04": mon_C04, "C07": mon_C07, "C06": mon_C06, "C09": mon_C09, "C03": mon_C03, "C10": mon_C10, "C01": mon_C01, "C02": mon_C02, "C11": mon_C11}
